@@ -109,6 +109,7 @@ func (r SelectRec) Key(withQuerierRange bool) string {
 	ms := append([]string(nil), r.Matchers...)
 	sort.Strings(ms)
 	g := append([]string(nil), r.Hints.Grouping...)
+	sort.Strings(g) // the grouping is a set of labels; the order in which it is written is not part of the contract
 	k := fmt.Sprintf("{%s} start=%d end=%d step=%d range=%d func=%q by=%v grouping=%v",
 		strings.Join(ms, ","), r.Hints.Start, r.Hints.End, r.Hints.Step, r.Hints.Range, r.Hints.Func, r.Hints.By, g)
 	if withQuerierRange {
